@@ -282,11 +282,17 @@ pub fn family_p(n: usize, js: &[usize]) -> Vec<Scenario> {
                 }
             }
             let mut p = dag(n, &edges, None, false);
-            p.pools = vec![("p1".into(), 1), ("p2".into(), 2), ("p0".into(), 0)];
             let mut x = code;
             for st in p.steps.iter_mut() {
                 st.pool = POOL_OPTIONS[x % POOL_OPTIONS.len()].map(|s| s.to_string());
                 x /= POOL_OPTIONS.len();
+            }
+            // Only the pools in use are declared (so that e.g. a manifest whose
+            // only bounded pool is the built-in console pool occurs).
+            for (name, depth) in [("p1", 1usize), ("p2", 2), ("p0", 0)] {
+                if p.steps.iter().any(|s| s.pool.as_deref() == Some(name)) {
+                    p.pools.push((name.to_string(), depth));
+                }
             }
             let cmds = all_cmdlines(&p);
             for &j in js {
@@ -372,6 +378,18 @@ pub fn family_t(n: usize, options: &[Option<EdgeKind>]) -> Vec<Scenario> {
                 }
             }
         }
+        // The manifest itself as the only target (it is not generated here):
+        // nothing is wanted.
+        for d in 0..2usize {
+            let mut p = dag(n, &edges, None, false);
+            if d == 1 {
+                p.defaults = vec!["o1".into()];
+            }
+            let mut s = Scenario::new(p);
+            s.targets = vec!["./build.ninja".into()];
+            s.note = format!("T{} edges={:?} only target is the manifest, defaults={}", n, edges, d);
+            out.push(s);
+        }
         // Unknown names: never mentioned, and mentioned only as a source.
         for (bad, known_source) in [("nosuch", false), ("o9", false), ("s0", true)] {
             let mut s = Scenario::new(dag(n, &edges, None, false));
@@ -389,11 +407,11 @@ pub fn family_r() -> Vec<Scenario> {
     let mut out = Vec::new();
     // base: cfg -> build.ninja generator; a -> b user chain; c independent;
     // `shared` decides how the generator's extra input relates to user steps.
-    for shared in 0..5usize {
+    for shared in [0usize, 1, 2, 3, 4, 6] {
         for manifest_name in ["build.ninja", "alt.ninja"] {
             let base = regen_project(manifest_name, shared, 0);
             for variant in 0..11usize {
-                for targets in [vec![], vec!["b".to_string()], vec!["c".to_string()], vec!["newt".to_string()], vec!["a".to_string(), manifest_name.to_string()]] {
+                for targets in [vec![], vec!["b".to_string()], vec!["c".to_string()], vec!["newt".to_string()], vec!["a".to_string(), manifest_name.to_string()], vec![manifest_name.to_string()]] {
                     for touch in [true, false] {
                         for j in [1usize, 3] {
                             let next = regen_project(manifest_name, shared, variant);
@@ -460,7 +478,7 @@ pub fn regen_project(manifest_name: &str, shared: usize, variant: usize) -> Proj
         10 => "c".to_string(),
         _ => "b".to_string(),
     }];
-    if shared >= 4 {
+    if shared == 4 || shared == 5 {
         // Main file: the manifest target and the fragment's generator.
         let frag = "frag.ninja";
         if shared == 4 {
@@ -498,13 +516,13 @@ pub fn regen_project(manifest_name: &str, shared: usize, variant: usize) -> Proj
     };
     // How the generator relates to user steps.
     match shared {
-        1 => gen.ins.push((EdgeKind::Implicit, "cfg".into())), // generated config
+        1 | 6 => gen.ins.push((EdgeKind::Implicit, "cfg".into())), // generated config
         2 => gen.ins.push((EdgeKind::Explicit, "sa".into())),  // shares a source with step a
         3 => gen.ins.push((EdgeKind::OrderOnly, "a".into())),  // ordered after user step a
         _ => {}
     }
     p.steps.push(gen);
-    if shared == 1 {
+    if shared == 1 || shared == 6 {
         p.steps.push(Step {
             outs: vec!["cfg".into()],
             cmdline: "CFG".into(),
@@ -513,7 +531,27 @@ pub fn regen_project(manifest_name: &str, shared: usize, variant: usize) -> Proj
         });
     }
     user_steps(&mut p, variant);
+    if shared == 6 {
+        // The generated config is also an input of user step a, and b reaches
+        // a twice (directly and through c): b: a c, c: a.
+        for st in p.steps.iter_mut() {
+            match st.outs[0].as_str() {
+                "a" => st.ins.push((EdgeKind::Implicit, "cfg".into())),
+                "c" => st.ins.push((EdgeKind::Explicit, "a".into())),
+                "b" | "newt" if st.cmdline == "B" => {
+                    if !st.ins.iter().any(|(_, f)| f == "c") && p_has_c(variant) {
+                        st.ins.push((EdgeKind::Explicit, "c".into()));
+                    }
+                }
+                _ => {}
+            }
+        }
+    }
     p
+}
+
+fn p_has_c(variant: usize) -> bool {
+    variant != 2
 }
 
 fn user_steps(p: &mut Project, variant: usize) {
